@@ -1,5 +1,6 @@
 import Pyunicorn.Model.Proto
 import Pyunicorn.Model.Coupling
+import Pyunicorn.Model.Coupling2
 /-! Line-protocol driver for C10: one request per line on stdin, one answer per line. -/
 open Pyunicorn Pyunicorn.Proto Pyunicorn.Coupling
 
@@ -83,6 +84,57 @@ def answer (toks : List String) : String :=
   | ["rank2", row] =>
       let l := rats row
       showNats ((rng l.length).map (rank2 l.length (ratFn l)))
+  | ["tmimap", n] =>
+      let N := n.toNat!
+      let M := tmiFlat 0 (fun i j => i * N + j + 1) N N
+      showNats ((rng (N * N)).map M)
+  | ["pxcorr", t, n, tm, flat] =>
+      let T := t.toNat!; let N := n.toNat!; let tm := tm.toNat!
+      let d := ratFn (rats flat)
+      let x : Nat → Nat → Rat := fun i k => d (i * T + k)
+      showRats ((rng (2 * tm + 1)).flatMap fun t => (rng N).flatMap fun i =>
+        (rng N).map fun j => pureXcorrSq x T tm t i j)
+  | ["pmodes", tm, vals] =>
+      let tm := tm.toNat!
+      let c := ratFn (rats vals)
+      let m := pureMaxEntry c tm
+      let sm := pureSumScan c tm (2 * tm + 1)
+      showRat m.1 ++ ";" ++ toString m.2 ++ ";" ++ showRat sm.1 ++ ";" ++ showRat sm.2
+  | ["pcc", n, tm, cr, flat] =>
+      let N := n.toNat!; let tm := tm.toNat!; let cr := cr.toNat!
+      let A := view3 (ratFn (rats flat)) N cr
+      let cells := (rng N).flatMap fun i => (rng N).map fun j => (i, j)
+      let mx := cells.map fun c => pureMaxEntry (pureCrossAt A tm cr c.1 c.2) tm
+      let sm := cells.map fun c => pureSumScan (pureCrossAt A tm cr c.1 c.2) tm (2 * tm + 1)
+      sect [showRats ((rng (2 * tm + 1)).flatMap fun t => cells.map fun c => pureCrossAt A tm cr c.1 c.2 t),
+            showRats (mx.map (·.1)), showInts (mx.map (·.2)),
+            showRats (sm.map (·.1)), showRats (sm.map (·.2))]
+  | ["itsq", t, n, tm, past, mit, flat] =>
+      let T := t.toNat!; let N := n.toNat!; let tm := tm.toNat!; let past := past.toNat!
+      let mit := mit == "1"
+      let d := ratFn (rats flat)
+      let x : Nat → Nat → Rat := fun i k => d (i * T + k)
+      let cells := (rng N).flatMap fun i => (rng N).flatMap fun j => (rng (tm + 1)).map fun tau => (i, j, tau)
+      showRats (cells.map fun c => itSq x T tm past mit c.1 c.2.1 c.2.2) ++ ";" ++
+        showNats (cells.map fun c => if itRegular x T tm past mit c.1 c.2.1 c.2.2 then 1 else 0) ++ ";" ++
+        showNats (((rng N).flatMap fun i => (rng N).map fun j => (i, j)).map fun c =>
+          (maxScan (fun tau => rabs (itSq x T tm past mit c.1 c.2 tau)) (tm + 1)).2)
+  | ["pcorr", t, n, flat] =>
+      let T := t.toNat!; let N := n.toNat!
+      let d := ratFn (rats flat)
+      let x : Nat → Nat → Rat := fun i k => d (i * T + k)
+      let Gl := (rng N).map fun i => ((rng N).map fun j => covTo T (x i) (x j)).toArray
+      let Ga := Gl.toArray
+      let G : Nat → Nat → Rat := fun a b => (Ga.getD a #[]).getD b 0
+      match gjInverse G N with
+      | none => "singular"
+      | some P =>
+        let cells := (rng N).flatMap fun i => (rng N).map fun j => (i, j)
+        let others := fun (i j : Nat) => (rng N).filter fun k => k != i && k != j
+        (if isInverse G P N then "1" else "0") ++ "|" ++
+          showRats (cells.map fun c => normInvSq P c.1 c.2) ++ "|" ++
+          showRats (cells.map fun c => parCorrSqG G (others c.1 c.2) c.1 c.2) ++ "|" ++
+          showNats (cells.map fun c => if pivotsOk G (others c.1 c.2) then 1 else 0)
   | _ => "bad-request"
 
 def main : IO Unit := runDriver answer
